@@ -10,8 +10,8 @@ def sh(cmd, cwd=None, env=None, timeout=1500):
     p = subprocess.run(cmd, shell=True, cwd=cwd, env=env, capture_output=True, text=True, timeout=timeout)
     return p.returncode, p.stdout + p.stderr
 
-def main(pid, n):
-    src = '/tmp/wt-%s/out' % pid
+def main(pid, n, prefix='wt', off=0):
+    src = '/tmp/%s-%s/out' % (prefix, pid)
     diff, demo, meta = ['%s/%s%s%s' % (src, a, n, b) for a, b in (('m', '.diff'), ('demo', '.py'), ('meta', '.json'))]
     if not (os.path.exists(diff) and os.path.exists(demo)):
         print(pid, n, 'missing deliverables'); return 2
@@ -48,7 +48,7 @@ def main(pid, n):
         ok = (rc0 == 0 and res['apply_rc'] == 0 and rc1 != 0 and not res['stable_pass_now_failing'])
         res['confirmed'] = ok
         if ok:
-            dst = '/verif/seeded/%s-m%s' % (pid, n)
+            dst = '/verif/seeded/%s-m%s' % (pid, int(n) + int(off))
             os.makedirs(dst, exist_ok=True)
             shutil.copy(diff, dst + '/patch.diff')
             shutil.copy(demo, dst + '/demo.py')
@@ -70,4 +70,4 @@ def main(pid, n):
     return 0
 
 if __name__ == '__main__':
-    sys.exit(main(sys.argv[1], sys.argv[2]))
+    sys.exit(main(*sys.argv[1:]))
